@@ -1,6 +1,8 @@
 (* C20 - the property theorems, nothing else.  Each is closed by [exact] of a
    lemma from Lemmas.v and followed by Print Assumptions. *)
-From CfdmV Require Import Common.Base Tables.LogLevels C20.Model C20.Lemmas.
+From CfdmV Require Import Common.Base Tables.LogLevels C20.Model C20.Lemmas C20.Trace C20.TraceLemmas.
+Open Scope Z_scope.
+Open Scope string_scope.
 
 (* Setting a constant returns its previous value. *)
 Theorem C20_setter_returns_old :
@@ -87,3 +89,40 @@ Theorem C20_calls_keep_constants :
   forall c s, core (fst (run_call c s)) = core s.
 Proof. exact (proj1 run_core). Qed.
 Print Assumptions C20_calls_keep_constants.
+
+(* The decorator with its entry and exit steps named, producing what code
+   running inside the call sees, is the decorator of Model.v. *)
+Theorem C20_trace_is_run :
+  forall c s, (fst (fst (trace_call c s)), snd (fst (trace_call c s))) = run_call c s.
+Proof. exact (proj1 trace_erasure). Qed.
+Print Assumptions C20_trace_is_run.
+
+(* A verbosity argument applies for the WHOLE of that call: the logging state
+   it establishes is in force at the start of the body and again after every
+   nested call has returned, or raised and been caught, at any nesting depth,
+   for nested calls that are handed the same verbosity or none (which is how
+   cfdm's own functions call each other), from any state whatsoever. *)
+Theorem C20_override_persists :
+  forall v b s z, normalise v = Some (Some z) -> compat_body z b = true ->
+  Forall (eq (etr (Some z) (triple s))) (snd (trace_call (Call v b) s)).
+Proof. exact override_persists. Qed.
+Print Assumptions C20_override_persists.
+
+(* Non-vacuity: a three-level chain with a raise caught on the way. *)
+Theorem C20_override_persists_example :
+  normalise (VInt 3) = Some (Some 3) /\
+  compat 3 chain3 = true /\
+  snd (trace_call chain3 base_warning) =
+    [("WARNING", 0, 15); ("WARNING", 0, 15); ("WARNING", 0, 15); ("WARNING", 0, 15);
+     ("WARNING", 0, 15); ("WARNING", 0, 15); ("WARNING", 0, 15)] /\
+  triple (fst (fst (trace_call chain3 base_warning))) = ("WARNING", 0, 30).
+Proof. exact override_persists_example. Qed.
+Print Assumptions C20_override_persists_example.
+
+(* A nesting counter per decorated function (instead of the one shared counter)
+   loses the override in the middle of the outer call. *)
+Theorem C20_per_function_counter_refuted :
+  exists v b s z, normalise v = Some (Some z) /\ compat_body z b = true /\
+    ~ Forall (eq (etr (Some z) (triple s))) (snd (trace_call_pf (Call v b) s)).
+Proof. exact per_function_counter_refuted. Qed.
+Print Assumptions C20_per_function_counter_refuted.
